@@ -311,24 +311,64 @@ fn sync_writer(req: &Value) -> R {
     .map_err(|e| staged(err_json(&e), "open"))?;
     let mut calls = 0u64;
     let mut total = 0usize;
-    for (i, c) in chunks.iter().enumerate() {
-        let mut off = 0usize;
-        loop {
+    // Calling patterns. "vectored": all chunks are handed over as one gather list (write_vectored) instead of one
+    // write per chunk. "after_write_error": what the caller does when a write fails - "fail" (default: give up),
+    // "retry" (offer the same bytes once more, then go on) or "commit" (stop writing and commit what there is).
+    let after_err = if has(req, "after_write_error") { s(req, "after_write_error") } else { "fail" };
+    let mut write_errors: Vec<Value> = Vec::new();
+    let mut stop = false;
+    if req.get("vectored").and_then(|x| x.as_bool()).unwrap_or(false) {
+        let mut slices: Vec<std::io::IoSlice> = chunks.iter().map(|c| std::io::IoSlice::new(c)).collect();
+        let mut bufs = &mut slices[..];
+        while bufs.iter().any(|b| !b.is_empty()) {
             let n = w
-                .write(&c[off..])
-                .map_err(|e| staged(ioerr_json(&e), &format!("write[{i}]")))?;
+                .write_vectored(bufs)
+                .map_err(|e| staged(ioerr_json(&e), "write_vectored"))?;
             calls += 1;
-            off += n;
             total += n;
-            if off >= c.len() {
+            if n == 0 {
+                return Err(json!({"variant":"StdIo","kind":"WriteZero","stage":"write_vectored"}));
+            }
+            std::io::IoSlice::advance_slices(&mut bufs, n);
+        }
+    } else {
+        for (i, c) in chunks.iter().enumerate() {
+            let mut off = 0usize;
+            let mut retried = false;
+            loop {
+                let n = match w.write(&c[off..]) {
+                    Ok(n) => n,
+                    Err(e) => {
+                        let ej = staged(ioerr_json(&e), &format!("write[{i}]"));
+                        if after_err == "retry" && !retried {
+                            retried = true;
+                            write_errors.push(ej);
+                            continue;
+                        }
+                        if after_err == "commit" {
+                            write_errors.push(ej);
+                            stop = true;
+                            break;
+                        }
+                        return Err(ej);
+                    }
+                };
+                calls += 1;
+                off += n;
+                total += n;
+                if off >= c.len() {
+                    break;
+                }
+                if n == 0 {
+                    return Err(json!({"variant":"StdIo","kind":"WriteZero","stage":format!("write[{i}]")}));
+                }
+            }
+            if stop {
                 break;
             }
-            if n == 0 {
-                return Err(json!({"variant":"StdIo","kind":"WriteZero","stage":format!("write[{i}]")}));
+            if flush_after.contains(&i) {
+                w.flush().map_err(|e| staged(ioerr_json(&e), &format!("flush[{i}]")))?;
             }
-        }
-        if flush_after.contains(&i) {
-            w.flush().map_err(|e| staged(ioerr_json(&e), &format!("flush[{i}]")))?;
         }
     }
     match fin {
@@ -345,10 +385,21 @@ fn sync_writer(req: &Value) -> R {
         _ => {
             pause_before_commit(req);
             let cw0 = wall_ms();
-            let sri = w.commit().map_err(|e| staged(err_json(&e), "commit"))?;
-            Ok(json!({"sri":sri.to_string(),"written":total,"calls":calls,"commit_w0":cw0.to_string()}))
+            let sri = w.commit().map_err(|e| commit_err(&e, cache))?;
+            Ok(json!({"sri":sri.to_string(),"written":total,"calls":calls,"commit_w0":cw0.to_string(),
+                      "write_errors":write_errors}))
         }
     }
+}
+
+/// A failed commit, described while the error value is still alive: whatever the error keeps alive (e.g. a temp
+/// file) is still there when the temp area is listed.
+pub fn commit_err(e: &cacache::Error, cache: &Path) -> Value {
+    let mut j = staged(err_json(e), "commit");
+    if let Some(o) = j.as_object_mut() {
+        o.insert("stray_while_error_alive".into(), json!(stray_files(cache)));
+    }
+    j
 }
 
 // Writers that stay open across requests ("wh_open" / "wh_write" / "wh_final"), so that the harness can
@@ -414,7 +465,7 @@ fn sync_handle(req: &Value) -> R {
                 drop(w);
                 return Ok(json!({"dropped":true}));
             }
-            let sri = w.commit().map_err(|e| staged(err_json(&e), "commit"))?;
+            let sri = w.commit().map_err(|e| commit_err(&e, cache))?;
             Ok(json!({"sri":sri.to_string()}))
         }
     }
@@ -687,6 +738,12 @@ fn harness_op(req: &Value) -> Option<R> {
             let p = s(req, "path");
             let r = if Path::new(p).is_dir() { std::fs::remove_dir_all(p) } else { std::fs::remove_file(p) };
             Some(Ok(json!({"removed": r.is_ok()})))
+        }
+        "chmod" => {
+            use std::os::unix::fs::PermissionsExt;
+            let mode = req.get("mode").and_then(|x| x.as_u64()).unwrap_or(0o644) as u32;
+            let r = std::fs::set_permissions(pth(req, "path"), std::fs::Permissions::from_mode(mode));
+            Some(Ok(json!({"changed": r.is_ok()})))
         }
         "ping" => Some(Ok(json!({"pong":true,"flavour":flavour(),"pid":std::process::id()}))),
         _ => None,
